@@ -812,7 +812,13 @@ def run(ctx: Ctx):
                 "call, write into k-th result, change argument}: all histories of length L after a 3-array prelude, random ones up to length 30, "
                 "and one >128-key flood per function; part B: object histories (convert, derived quantity, item assignment, replace/mutate other, "
                 "slice, mask, write into a result) run naturally and with all caches flushed before each step; non-trivial = at least two calls / "
-                "two steps; distinct by the operation list")
+                "two steps; distinct by the operation list; part D (harness/c08_hist.py): for 17 kinds of position objects x every way of making "
+                "a second object from one (copy, copy.copy, deepcopy, view, [...], transpose, reshape, ufunc output, slices, tuple / fancy / mask / "
+                "integer index, constructor, factories, +/- a delta, conversions, .pos/.vel): read - change one of the objects involved (item "
+                "assignment with 6 kinds of keys, or replace an attachment) - read every readable quantity of the derived object and of its "
+                "source, compared exactly with the same history without the early reads and (1e-9) with a freshly built twin; and for every "
+                "Python-defined method taking another object: call - change the argument / its attachment / the receiver - call again, same two "
+                "comparisons (core plans exhaustively, the rest sampled)")
     ctx.trusted += ["translator/extract_cache.py (AST facts about HashArray, hashable, the public wrappers, TimeBase.__eq__/_to_scale)",
                     "functools.lru_cache behaves as an LRU map keyed by hash and __eq__ of the arguments (modelled, validated through cache_info)",
                     "NumPy view/copy semantics of asarray/view/.copy() are modelled (which buffers alias), validated by the write-into-result steps"]
@@ -965,6 +971,11 @@ def run(ctx: Ctx):
     ctx.extra["exhaustive_object_histories"] = n_exc
     for _ in range(ctx.budget(250, 8000)):
         run_obj_machine(ctx, mods, gen_obj_history(rng, rng.randint(4, 30)), "random")
+    # ---------------- part D: the position classes (every derivation, every method with an object argument)
+    from . import c08_hist
+
+    ctx.extra["D1_histories"] = c08_hist.run_d1(ctx, mods, ctx.thorough)
+    ctx.extra["D2_histories"] = c08_hist.run_d2(ctx, mods, ctx.thorough)
     ctx.traces = ctx.evaluations
 
 
